@@ -714,7 +714,12 @@ namespace bloch::compiler {
             (void)expect(TokenType::LParen, "Expected opening bracket '('");
             numberOfShots = expect(TokenType::IntegerLiteral, "Number of shots must be an integer");
             try {
-                (void)std::stoi(numberOfShots.value);
+                if (std::stoi(numberOfShots.value) <= 0) {
+                    throw BlochError(ErrorCategory::Parse, numberOfShots.line,
+                                     numberOfShots.column, "Number of shots must be positive");
+                }
+            } catch (const BlochError&) {
+                throw;
             } catch (const std::exception&) {
                 // The value is converted with std::stoi when the program is loaded.
                 throw BlochError(ErrorCategory::Parse, numberOfShots.line, numberOfShots.column,
